@@ -117,3 +117,39 @@ for _pid, _mods in {"C01": ["ReachA"], "C02": ["ReachA"], "C07": ["ReachA"], "C1
                     "C15": ["ReachF"], "C16": ["ReachF"]}.items():
     P[_pid].setdefault("extra_modules", [])
     P[_pid]["extra_modules"] = P[_pid]["extra_modules"] + ["Irc.Props." + m for m in _mods]
+
+
+# ---- state components that belong to a property whatever command touches them ("changes only by ..."):
+# compared after EVERY operation, not only after the verbs of the footprint.  (A divergence that first
+# shows at another verb would otherwise end the comparison of that sequence outside the footprint.)
+def _fields(kind, idx):
+    def f(st):
+        out = []
+        for l in st:
+            t = l.split(" ")
+            if t[1] == kind:
+                out.append(" ".join([kind] + [t[i] for i in idx if i < len(t)]))
+        return out
+    return f
+
+
+def _both(*fs):
+    return lambda st: [x for f in fs for x in f(st)]
+
+
+def _oper_bits(st):
+    out = []
+    for l in st:
+        t = l.split(" ")
+        if t[1] == "user":
+            out.append("user %s %s" % (t[2], "".join(c for c in t[7] if c in "oO")))
+    return out
+
+
+P["C16"]["st_any"] = _fields("chan", [2, 16, 17, 18, 19, 20, 21])          # existence, configured ranks, preconfigured
+P["C04"]["st_any"] = st_kinds({"member"})                                   # the membership relation
+P["C02"]["st_any"] = _both(_fields("user", [2]), _fields("conn", [2, 3, 9]))  # who owns which nick
+P["C11"]["st_any"] = _oper_bits                                             # operator flags
+P["C19"]["st_any"] = st_kinds({"cnt"})                                      # the counters
+P["C08"]["st_any"] = _fields("chan", [2, 5, 6, 7, 8, 9, 10, 11, 12, 13, 14, 15])  # channel modes and rank lists
+P["C09"]["st_any"] = _fields("chan", [2, 3, 4])                             # topic and who set it
